@@ -47,7 +47,7 @@ try:
     def rm_demo():
         subprocess.run(['git', '-C', wt, 'clean', '-fdq'], check=True)
         subprocess.run(['git', '-C', wt, 'checkout', '--', 'go.mod', 'go.sum'], check=False)
-    lock = open('/tmp/confirm_suite.lock', 'w')
+    lock = open(os.environ.get('CONFIRM_LOCK', '/tmp/confirm_suite.lock'), 'w')
     def run(cmd, timeout=1800):
         p = subprocess.run(cmd, cwd=wt, env=ENV, stdout=subprocess.PIPE, stderr=subprocess.STDOUT, text=True, timeout=timeout)
         return p.returncode, p.stdout
